@@ -399,7 +399,12 @@ def main():
     sect = {}
     chk.coverage['section_wall_s'] = sect
     # the exception map of the source, and every data table of /repo/data that a C01 obligation quantifies over (Props/C01 §8)
-    chk.prove('I18n.Props.C01', generated=('excmap', 'pluralforms', 'tagregistry', 'tagsites', 'locale', 'charset', 'date', 'msg'))
+    chk.prove('I18n.Props.C01', generated=('excmap', 'pluralforms', 'tagregistry', 'tagsites', 'locale', 'charset', 'date', 'msg', 'checkload'))
+    # the tie: the control flow of Checker.check regenerated from the current lib/check/__init__.py and proved equal to the model Check.check
+    common.prove_tie(chk, 'I18n.Props.C01Tie', ('checkload',),
+                     'the control flow of Checker.check (os.stat, extension dispatch, loader call and ISO-8859-1 retry, handlers, finally, stage order) regenerated from '
+                     'the current lib/check/__init__.py is no longer proved equal to the model Check.check (generated_check_eq_model, stage_order_pin)',
+                     extra_targets=())
     rng = chk.rng
     model_streams(chk, rng)
     mult = 3 if chk.broken else 1
@@ -788,6 +793,8 @@ def main():
         trusted=['Lean 4.33 kernel', 'axioms: propext, Classical.choice, Quot.sound only',
                  'tools/translate/excmap2lean.py: ast walk over lib/, exception class expressions evaluated on the live modules; dispatch = first clause one of whose classes is in the MRO '
                  '(compared with issubclass on every try site x class pair: stream pipeline-dispatch)',
+                 'Checker.check is tied by translation + proof: tools/translate/checkload2lean.py (symbolic execution of the method over the finite abstraction os.stat ok / extension class / '
+                 'loader outcome kinds; class table of the handlers; tag arguments and local string computations not followed) is trusted, the regenerated function is PROVED equal to Check.check (Props/C01Tie.lean)',
                  'the models of Checker.check, cli.main/check_all/check_file/check_deb and check_string are compared with the REAL functions under scripted collaborators '
                  '(streams pipeline-check, -main, -file, -cstring, -pystring, -pybstring, -perlstring), not proved equal to them',
                  'component theorems used (C02, C04-C07, C09-C20) are tied to the source by their own checks, not re-tied here',
